@@ -59,6 +59,13 @@ def gen_case(rng):
                 if cn in r["config"]["codenames"]:
                     for comp in r["config"]["codenames"][cn]:
                         r["config"]["codenames"][cn][comp]["arches"] = ["amd64", "i386"]
+    if case.get("twin") and rng.random() < 0.5:
+        # ... and both twins under ignore_errors while their shared by-hash URL answers once and then fails for
+        # good (so does each canonical URL): whichever twin comes second fails and is ignored, the first one is
+        # published with its by-hash names
+        case["ignored_twin"] = True
+        case["local_fault"] = None
+        case["path_fault"] = False
     if case["variant_drop"]:
         case["prior"] = True
         for r in scn.repos:
@@ -88,6 +95,24 @@ def run_case(rep, scn, case, sb: Path, tag):
     files2 = R.files_of(scn2)
     served = mutate_mid_run(rng, scn2, files2) if case["switch"] else files2
     plan = R.gen_fault_plan(rng, scn2, served)
+    if case.get("ignored_twin"):
+        plan = {}
+        for r in scn2.repos:
+            fs = served[r["url"]]
+            canon = sorted(q for q in fs if "/Contents-" in q and "/by-hash/" not in q)
+            ign = set()
+            for q in canon:
+                # index files are matched against ignore_errors by their name inside the Release (relative to dists/<codename>)
+                rel = q.split("/", 2)[2]
+                ign.add(rel[:-3] if rel.endswith(".gz") else rel)
+                plan.setdefault(r["url"], {})[q] = {"first": [], "rest": "error"}
+                d = q.rsplit("/", 1)[0]
+                aliases = [x for x in fs if x.startswith(d + "/by-hash/") and fs[x][0] == fs[q][0]]
+                # the alias that is requested first (strongest listed hash) answers once, every other alias never
+                first = next((x for h in ("SHA512", "SHA256", "SHA1", "MD5Sum") for x in aliases if f"/by-hash/{h}/" in x), None)
+                for b in aliases:
+                    plan[r["url"]][b] = {"first": ["good"] if b == first else [], "rest": "error"}
+            r["config"]["ignore_errors"] = sorted(ign)
     path_fault = None
     if case.get("path_fault"):
         # a local I/O error on ONE pool file while other pool files are under ignore_errors
